@@ -1,6 +1,6 @@
 (* C02 — the HOG hierarchy is a forest aligned level-by-level with the species tree. *)
 From Coq Require Import List Arith Bool String Permutation.
-From PyHam Require Import Tax Ortho Loader Mapper Preds Hist Spell Whole.
+From PyHam Require Import Tax Ortho Loader Mapper Preds Filter Hist Spell Whole.
 From PyHam.proofs Require Import LoaderFacts ExplicitFacts SpellFacts OidFacts WholeFacts.
 Import ListNotations.
 
@@ -10,14 +10,15 @@ Import ListNotations.
    of one duplication spelt as that duplication's paralogGroup nest, copies several levels below their
    group, paralogGroups nested in any bracketing, species-level wrapper groups, any ids, annotations
    anywhere, TaxRange labels), in every order of members (histories are ordered lists and every order is
-   quantified over).  Not covered by the relation: LOFT attributes on geneRefs.
+   quantified over); geneRefs may carry LOFT attributes, every gene being referenced at most once.
    Statement: the document loads, every top-level HOG represents its history (matches) and satisfies
    wf_node: every HOG has a child; each child lives at a direct child taxon of its parent's taxon; genes at
    leaves, HOGs at internal nodes; two children at one taxon are copies of one duplication; every
    duplication groups at least two children of the HOG it is attached to, all at one taxon; a child is
    flagged exactly when it belongs to such an event. *)
 Theorem c02_aligned : forall t d hs,
-  Forall (species_sane t) (d_species d) -> NoDup (declared d) -> Forall2 (spells_top t) hs (d_groups d) ->
+  Forall (species_sane t) (d_species d) -> NoDup (declared d) -> NoDup (flat_map refs_of (d_groups d)) ->
+  Forall2 (spells_top t) hs (d_groups d) ->
   (forall genes, map fst genes = declared d ->
      (forall g p, In (g, p) genes -> exists sp, In sp (d_species d) /\ In g (map gd_id (sp_genes sp)) /\ species_resolves t sp p) ->
      Forall (WFh t genes) hs) ->
